@@ -8,7 +8,9 @@ HEADER = ("From Hy Require Import lib.Harness model.C11_Pacer model.C11_Brutal c
           "From Coq Require Import ZArith.\nLocal Open Scope Z_scope.\n")
 RULE = ("seeded generator: (loop) simulated QUIC send loops on a virtual clock against the real BrutalSender+Pacer - rates 65536 B/s .. 5e9 B/s "
         "(boundary and log-uniform), datagram sizes {1200,1252,1280,1452,1500}, smoothed RTT {0, 1 ms .. 2 s}, loss probabilities around the "
-        "0.8 clamp, idle gaps up to 30 s, timer slack, initial-burst drain, aggregated sends; (script) directed ack/loss batch sequences around "
+        "0.8 clamp, idle gaps up to 30 s, timer slack, initial-burst drain, aggregated sends, and released packets that are not ack-eliciting "
+        "(OnPacketSent's isRetransmittable=false) in shares 0 % .. 100 % with sizes like the others / uniform up to the datagram size / ACK-sized, "
+        "which pass the same pacing gate, are not bytes in flight, and whose bytes the rate verdict counts like all others; (script) directed ack/loss batch sequences around "
         "the 50-sample threshold, the 0.8 clamp and slot overwriting, and random call sequences with out-of-range values (rate 0 and >= 2^63, "
         "negative/backward/huge times, sizes above the budget, odd datagram sizes). Every call is followed by Budget/TimeUntilSend/"
         "Budget(at the announced time)/HasPacingBudget/GetCongestionWindow/CanSend/Float64bits(ackRate), all compared with the model. "
@@ -28,6 +30,7 @@ EXTRA_TARGETS = ["corr/C11_Corr.vo"]
 MDS = [1200, 1252, 1280, 1452, 1500]
 RTTS = [0, 10**6, 5 * 10**6, 20 * 10**6, 80 * 10**6, 300 * 10**6, 2 * 10**9]
 RATES = [65536, 65537, 100000, 10**6, 3200000, 3200001, 12500000, 125 * 10**6, 1250 * 10**6, 5 * 10**9]
+NRPS = [0.02, 0.1, 0.25, 0.5, 0.75, 0.9, 1.0]   # shares of released packets with isRetransmittable=false
 
 
 def loop_case(rng, bps=None, **kw):
@@ -42,7 +45,9 @@ def loop_case(rng, bps=None, **kw):
           "slack": rng.choice([0, 0, 10**5, 5 * 10**6]), "small": rng.random() < 0.3,
           "maxgap": rng.choice([5 * 10**6, 10**9, 7 * 10**9, 30 * 10**9]),
           "drain": high and rng.random() < 0.8,
-          "batch": rng.choice([0, 16, 64, 1024]) if high else rng.choice([0, 0, 3])}
+          "batch": rng.choice([0, 16, 64, 1024]) if high else rng.choice([0, 0, 3]),
+          # released packets that are not ack-eliciting: share (0 = the all-data history) and size class
+          "nrp": rng.choice(NRPS) if rng.random() < 0.5 else 0, "nrsz": rng.choice([0, 0, 1, 2])}
     lp.update(kw)
     return {"k": "loop", "bps": bps, "dis": rng.random() < 0.15, "loop": lp}
 
@@ -73,7 +78,7 @@ def rand_script(rng):
         x = rng.random()
         if x < 0.4:
             size = rng.choice([0, 1, mds - 1, mds, mds, mds + 1, 12800, 20000, 2**40, -5, rng.randrange(1, 3000)])
-            steps.append({"op": "sent", "t": clock, "size": size})
+            steps.append({"op": "sent", "t": clock, "size": size, "nr": rng.random() < 0.4})
         elif x < 0.65:
             a = rng.choice([0, 1, 10, 39, 40, 41, 49, 50, 51, 100, 1000])
             l = rng.choice([0, 0, 1, 9, 10, 11, 12, 13, 50, 300])
@@ -117,6 +122,14 @@ def gen(rng, tier):
             cases.append(loop_case(rng, bps=bps, mds=mds))
     for _ in range(70 * scale):
         cases.append(loop_case(rng))
+    # --- mixtures of ack-eliciting and not ack-eliciting packets: every share with every size class, in the regime where
+    #     the bound is tight (the packet-count burst dominates at low rates; the 0.8 clamp makes rate/0.8 exact at any rate)
+    for nrp in NRPS:
+        for nrsz in (0, 1, 2):
+            tight = rng.random() < 0.5
+            cases.append(loop_case(rng, bps=rng.choice([65536, 100000, 10**6, 3200000]) if tight else None,
+                                   nrp=nrp, nrsz=nrsz, n=90, idlep=rng.choice([0, 0.03]),
+                                   **({} if tight else {"lossp": rng.choice([0.21, 0.3, 0.5])})))
     # --- random scripts with out-of-range values (model agreement only)
     for _ in range(40 * scale):
         cases.append(rand_script(rng))
@@ -134,7 +147,7 @@ def b(v):
 def step_term(s):
     op = s["op"]
     if op == "sent":
-        return "Sn %s %s" % (z(s["t"]), z(s["size"]))
+        return "%s %s %s" % ("Sx" if s.get("nr") else "Sn", z(s["t"]), z(s["size"]))
     if op == "ev":
         return "Ev %s %d %d" % (z(s["t"]), s["a"], s["l"])
     if op == "mds":
@@ -176,6 +189,8 @@ def klass(c, o):
         tags.append("panic")
     if s.get("undisciplined-send"):
         tags.append("undisciplined")
+    if s.get("nr-sends"):
+        tags.append("nr-all" if s["nr-sends"] == s.get("sends") else "nr-mix")
     return ":".join(tags)
 
 
@@ -192,7 +207,7 @@ FP = [("at the announced wake-up time", "C11:wakeup-insufficient"), ("HasPacingB
 
 def fingerprint(c, o):
     """stable class of a violation (so one VIOLATION line per kind of failure, not per case)"""
-    why = o.get("why") or ""
+    why = (o.get("why") or "").split(" | earlier: ")[0]   # the leading clause names the class
     for pat, fp in FP:
         if pat in why:
             return fp
